@@ -1,6 +1,7 @@
 package node
 
 import (
+	"bytes"
 	"context"
 	"database/sql"
 	"fmt"
@@ -664,8 +665,14 @@ func (d *Pegnetd) SnapshotPayouts(tx *sql.Tx, fLog *log.Entry, rates map[fat2.PT
 		return nil
 	}
 
+	// list was built by ranging over a map, so its order is random. Equal
+	// stakes must not keep that order: the position becomes the payout's
+	// tx index and decides who receives the dust.
 	sort.Slice(list, func(i, j int) bool {
-		return list[i].PUSD < list[j].PUSD
+		if list[i].PUSD != list[j].PUSD {
+			return list[i].PUSD < list[j].PUSD
+		}
+		return bytes.Compare(list[i].Address[:], list[j].Address[:]) < 0
 	})
 
 	// Calculate payouts
